@@ -314,8 +314,8 @@ def run(ctx):
     # ------------------------------------------------------------ M: add_candle
     # (LB, prefill, depth, maxlen, bulk inserts up to, batches of batch_add_candle up to)
     insts = ctx.pick([(2, 0, 6, 5, 3, 0), (20, 22, 2, 26, 2, 0), (2, 0, 3, 4, 0, 3), (20, 22, 1, 26, 0, 3)],
-                     [(2, 0, 7, 6, 3, 0), (3, 0, 6, 6, 2, 0), (20, 22, 2, 26, 3, 0), (20, 22, 3, 26, 0, 0), (2, 0, 4, 5, 1, 4),
-                      (20, 22, 2, 26, 0, 4)])
+                     [(2, 0, 7, 6, 3, 0), (3, 0, 6, 6, 2, 0), (20, 22, 2, 26, 3, 0), (20, 22, 3, 26, 0, 0), (2, 0, 3, 5, 1, 4),
+                      (20, 22, 1, 26, 0, 4)])
     jobs, labels = [], []
     for inst in insts:
         for q in (False, True):
